@@ -1051,9 +1051,9 @@ func matchSelectorToMetric(selector *promParser.VectorSelector, metric string) (
 }
 
 func parseRuleSet(s string) (matcher, key, value string) {
-	if strings.HasPrefix(s, SeriesCheckName+"(") {
-		matcher = strings.TrimPrefix(s[:strings.LastIndex(s, ")")], SeriesCheckName+"(")
-		s = s[strings.LastIndex(s, ")")+1:]
+	if idx := strings.LastIndex(s, ")"); strings.HasPrefix(s, SeriesCheckName+"(") && idx >= 0 {
+		matcher = strings.TrimPrefix(s[:idx], SeriesCheckName+"(")
+		s = s[idx+1:]
 	} else {
 		s = strings.TrimPrefix(s, SeriesCheckName)
 	}
